@@ -284,7 +284,9 @@ Proof.
     assert (Iz : In z pts) by (apply last_opt_in; exact EZ).
     change (Z.of_nat (length pts) =? 0) with false. cbv iota zeta.
     rewrite slice_last_last_opt, EZ.
-    change (Casts.slice_nth (P 0 0) pts 0) with a. change (Casts.slice_nth (P 0 0) pts 1) with b.
+    assert (G0 : Casts.slice_get pts 0 = Some a) by (unfold Casts.slice_get; rewrite (proj2 (Z.ltb_lt 0 _)) by (unfold pts; cbn [length]; lia); reflexivity).
+    assert (G1 : Casts.slice_get pts 1 = Some b) by (unfold Casts.slice_get; rewrite (proj2 (Z.ltb_lt 1 _)) by (unfold pts; cbn [length]; lia); reflexivity).
+    rewrite G0, G1. cbv iota zeta.
     rewrite (src_lj_from_points_eq _ _ _ _ _ _ F E1 (HF _ _ Iz Ia) (HF _ _ Ia Ib)).
     eexists. exists (Datatypes.S (length pts + 3)). split; [lia|]. split; [reflexivity|].
     fold (ctsi_state pts sj sj w so pts false (Z.of_nat 1)).
